@@ -103,6 +103,9 @@ func customEncodeTime(t time.Time) []byte {
 
 // customDecodeTime decodes a []byte into a time.Time.
 func customDecodeTime(bs []byte) (tt time.Time, err error) {
+	// every component must lie within bs: do not let the reslicing below
+	// reach into the capacity beyond len (the bytes of whatever follows)
+	bs = bs[:len(bs):len(bs)]
 	bd := bs[0]
 	var (
 		tsec  int64
